@@ -281,9 +281,10 @@ def gen_isa(rng, kinds=None, n_sets=None, n_instr=None, addr_bits=None, want_yam
                         ops['operand_sets']['reverse_bytecode_order'] = True
                 else:
                     lst = {}
+                    # an implied (empty) operand may stand anywhere in the list, at most one per list
+                    empty_at = rng.randrange(cnt) if cnt > 1 and rng.random() < 0.4 else None
                     for k in range(cnt):
-                        last = (k == cnt - 1)
-                        kind = rng.choice(kinds + (['empty'] if last and cnt > 1 else []))
+                        kind = 'empty' if k == empty_at else rng.choice(kinds)
                         lst[f'sp{k}_{kind[:6]}'] = gen_operand(rng, kind, regs, endian, addr_bits, zones)
                     spec = {'list': lst}
                     if rng.random() < 0.35:
